@@ -5,6 +5,16 @@ EXTENDS LinAdjust
 CONSTANTS SVals,        \* values of a summary (may contain NAN, PINF, NINF)
           ThVals        \* values of a parameter
 
+\* named value sets (a cfg file cannot write negative numbers)
+SV_nan == {0, 1, 2, NAN}
+SV_ninf == {0, 1, 2, NINF}
+SV_wide == {0, 1, 2, 4, NAN}
+SV_fin == {0, 1, 2}
+TV_pinf == {0, 1, PINF}
+TV_nan == {0, 1, 3, NAN}
+TV_neg == {-1, 0, 2, PINF}
+TV_fin == {0, 1}
+
 MCRowTypes == {s \o t : s \in [1..K -> SVals], t \in [1..NP -> ThVals]}
 
 MCObs == IF K = 1 THEN {<<1>>} ELSE {<<1, 0>>, <<1, 1>>}
